@@ -434,9 +434,10 @@ ValidateEffect(v) ==
 Validate(v) == ValidateGuard(v) /\ ValidateEffect(v)
 
 \* validation of a block that deviates from the produced one in exactly one way
-TamperKinds == {"mintAmount", "mintGasPrice", "mintIndex", "noMint", "mintNotLast", "mintRecipient", "dupTx", "dupInBlock", "dropTx"}
+TamperKinds == {"mintInflate", "mintAmount", "mintGasPrice", "mintIndex", "noMint", "mintNotLast", "mintRecipient", "dupTx", "dupInBlock", "dropTx"}
 TamperReason(kind) ==
   CASE kind = "mintAmount" -> "CoinbaseAmountMismatch"
+    [] kind = "mintInflate" -> "CoinbaseAmountMismatch"
     [] kind = "mintGasPrice" -> "Rejected"   \* validation takes the gas price from the mint itself; only the header commits to it
     [] kind = "mintIndex" -> "MintHasUnexpectedIndex"
     [] kind = "noMint" -> "MintMissing"
@@ -554,7 +555,7 @@ AskedWhatIsLeft ==
     /\ q.size = Max2(0, cfg.sizeLimit - q.usedSize)
     /\ q.n = Max2(0, cfg.maxTx - q.count)
 TamperedRejected == \A i \in DOMAIN tampers : tampers[i].res = "Reject"
-MintTamperedRejected == \A i \in DOMAIN tampers : tampers[i].kind \in {"mintAmount", "mintGasPrice", "mintIndex", "noMint", "mintNotLast"} => tampers[i].res = "Reject"
+MintTamperedRejected == \A i \in DOMAIN tampers : tampers[i].kind \in {"mintInflate", "mintAmount", "mintGasPrice", "mintIndex", "noMint", "mintNotLast"} => tampers[i].res = "Reject"
 
 (* ---- C04 ----------------------------------------------------------------*)
 StateOf(cs) == {[id |-> c.id, slots |-> c.slots, bals |-> c.bals] : c \in cs}
@@ -601,6 +602,9 @@ MessagesLand == Committed => \A e \in ToSet(RelayerRange(prev.da, chain.da)) : e
 ExecutedOnce ==
   /\ NoDup(gh.executed)
   /\ phase = "produced" => NoDup(prod.txs) /\ ToSet(prod.txs) \cap ToSet(gh.executed) = {}
+\* the id check can only stop a repetition of what was recorded: every id executed by a committed block
+\* (mint included) is in the ProcessedTransactions table read back after the commit
+ProcessedRecorded == Committed => ToSet(prod.txs) \subseteq chain.processed
 DupRejected == \A i \in DOMAIN tampers : tampers[i].kind \in {"dupTx", "dupInBlock"} => tampers[i].res = "Reject"
 
 (* ---- C07 ----------------------------------------------------------------*)
